@@ -126,6 +126,8 @@ def dump_real(fl):
     S = np.asarray(fl.S) if fl.noise_flag else None     # rank-tolerant: the dump must not fail where the logger did not
     if S is not None:
         S = S.reshape(S.shape[0], -1) if S.size else S.reshape(0, 1)
+    # rank-/size-tolerant: after a failed store Xn may point beyond the tables; the dump must not fail where the logger did not
+    n = max(0, min([n, len(fl.X_orig), len(fl.X), len(fl.Y_orig), len(fl.Y), len(fl.n_evals)] + ([len(S)] if S is not None else [])))
     for i in range(n):
         s2 = None
         if fl.noise_flag and not math.isnan(S[i, 0]):
